@@ -17,6 +17,9 @@ StdErrSink::StdErrSink(ColorMode colorMode)
 QTLOGGER_DECL_SPEC
 void StdErrSink::send(const LogMessage &lmsg)
 {
+    // The standard streams must exist even when logging runs before main() (static initialisation)
+    static std::ios_base::Init iosInit;
+
     if (m_colorsEnabled) {
         std::cerr << qPrintable(colorize(lmsg.formattedMessage(), lmsg.type())) << std::endl;
     } else {
@@ -27,6 +30,8 @@ void StdErrSink::send(const LogMessage &lmsg)
 QTLOGGER_DECL_SPEC
 bool StdErrSink::flush()
 {
+    static std::ios_base::Init iosInit;
+
     std::flush(std::cerr);
     return true;
 }
